@@ -181,7 +181,13 @@ def run_case(c):
             if c["nac"]:
                 # the NAC method is part of the saved calculation: Wang | Gonze-Lee | not given (documented default Gonze-Lee)
                 nmeth = [None, "wang", "gonze"][int(rng.integers(3))]
-                nacp = nacgen.random_nac(ph, rng, method=nmeth or "wang", factor=units["nac_factor"] if units["nac_factor"] else 1.0)
+                # the NAC unit factor is the user's: the calculator default, a value a few parts per million away from it (the user's own
+                # rounding of the constants - the file prints six decimals, which resolves that), or a quite different one (round 9).
+                # (chosen from the case seed, not from the stream; values exactly printable with six decimals)
+                fbase = units["nac_factor"] if units["nac_factor"] else 1.0
+                nfac = round(fbase * [1.0, 1.0 + 5e-6, 1.0 - 4e-6, 1.25][int(c.get("seed", 0)) % 4], 6)
+                obs["nac_factor_%s" % ["default", "near_default", "near_default", "other"][int(c.get("seed", 0)) % 4]] = 1
+                nacp = nacgen.random_nac(ph, rng, method=nmeth or "wang", factor=nfac)
                 if nmeth is None:
                     nacp.pop("method")
                 ph.nac_params = nacp
@@ -327,7 +333,7 @@ def run_case(c):
                     if np.abs(np.array(n1["born"]) - np.array(n2["born"])).max() > max(tb, 5.1e-9) or np.abs(np.array(n1["dielectric"]) - np.array(n2["dielectric"])).max() > max(tb, 5.1e-9):
                         b("nac_mismatch", "NAC parameters differ after reload: dZ=%.3e deps=%.3e" % (np.abs(np.array(n1["born"]) - np.array(n2["born"])).max(),
                                                                                                      np.abs(np.array(n1["dielectric"]) - np.array(n2["dielectric"])).max()))
-                    if abs(n1["factor"] - n2.get("factor", np.nan)) > 1e-6 * abs(n1["factor"]):
+                    if not abs(n1["factor"] - n2.get("factor", np.nan)) <= 0.6e-6 + 1e-12 * abs(n1["factor"]):  # printed with six decimals
                         b("nac_mismatch", "NAC unit factor %.10g reloaded as %r" % (n1["factor"], n2.get("factor")))
                     m1, m2 = (n1.get("method") or "gonze").lower(), (n2.get("method") or "gonze").lower()
                     if m1 != m2:
